@@ -6,6 +6,7 @@ import (
 	"fmt"
 	"go/constant"
 	"go/token"
+	"go/types"
 	"sort"
 	"strings"
 
@@ -14,7 +15,7 @@ import (
 
 func init() {
 	register(&Rule{ID: "VD5", Min: 6, Run: ruleVD5,
-		Doc: "link-emission-guarded: every \"link\"/\"unlink\" emission outside replay/compaction is dominated, with the same (from,to) values, by: both ids found in graph.Tasks of the graph loaded in this callback, validateDepSelf==nil, validateDepKinds(isEpic(fromItem),isEpic(toItem))==nil, and — wherever the type can be \"link\" — the false edge of hasCycle(graph, from, to); each accepted edge is added to the in-memory graph before the next check; for plan the ends are ids minted in the same callback and the guards are {self, cycle}; Graph.RDeps/Task.Deps/Task.RDeps are written only by replay"})
+		Doc: "link-emission-guarded: every \"link\"/\"unlink\" emission outside replay/compaction is dominated, with the same (from,to) values, by: both ids found in graph.Tasks of the graph loaded in this callback, validateDepSelf==nil, validateDepKinds(isEpic(fromItem),isEpic(toItem))==nil, and — wherever the type can be \"link\" — the false edge of hasCycle(graph, from, to); each accepted edge is added to the in-memory graph before the next check; for plan the ends are ids minted in the same callback, looked up in the title map only once every title was entered (ends-complete), and the guards are {self, cycle}; the guards may sit in a validator helper whose nil answer means, alternative by alternative, `not a link` or `the cycle search said no and the edge was inserted`; Graph.RDeps/Task.Deps/Task.RDeps are written only by replay"})
 	register(&Rule{ID: "VD6", Min: 6, Run: ruleVD6,
 		Doc: "replay-tombstone-guards: in replay the insertion of a created item and the insertion/removal of an edge are dominated by the negative Tombstones lookup of every id they use; the tombstone case applies the tombstone on every non-error path; applying a tombstone records it and removes the id from Tasks, Meta, Deps[id] and every Deps[*][id]"})
 	register(&Rule{ID: "VD7", Min: 6, Run: ruleVD7,
@@ -27,6 +28,20 @@ func (c *Ctx) lookupEdges(f *ssa.Function, field, keyCanon string, want bool) ma
 	return edgesWhere(f, func(a Atom, holds bool) bool {
 		if a.Kind != "bool" || holds != want {
 			return false
+		}
+		// `anyPruned(graph, a, b) == false`: none of the listed keys is in the map
+		if !want {
+			if cl, _ := callOf(a.X); cl != nil {
+				if h := calleeOf(&cl.Call); h != nil && c.InModule(h) {
+					if si := c.anyLookupHelper(h, field); si >= 0 && si < len(cl.Call.Args) {
+						for _, el := range variadicElems(cl.Call.Args[si : si+1]) {
+							if c.canon(el) == keyCanon {
+								return true
+							}
+						}
+					}
+				}
+			}
 		}
 		ex, ok := strip(a.X).(*ssa.Extract)
 		if !ok || ex.Index != 1 {
@@ -41,6 +56,95 @@ func (c *Ctx) lookupEdges(f *ssa.Function, field, keyCanon string, want bool) ma
 		}
 		return c.canon(lk.Index) == keyCanon
 	})
+}
+
+// anyLookupHelper: h(..., keys []string) bool answers true as soon as one of keys is found in <graph>.<field> and false only
+// after all of them were looked at: the index of the keys parameter, -1 when h is not of that form.
+func (c *Ctx) anyLookupHelper(h *ssa.Function, field string) int {
+	if h == nil || h.Blocks == nil || h.Signature.Results().Len() != 1 || h.Signature.Results().At(0).Type().String() != "bool" {
+		return -1
+	}
+	si := -1
+	for i, prm := range h.Params {
+		if sl, ok := prm.Type().Underlying().(*types.Slice); ok && sl.Elem().String() == "string" {
+			si = i
+		}
+	}
+	if si < 0 {
+		return -1
+	}
+	keys := h.Params[si]
+	// the loop and its header
+	body := map[*ssa.BasicBlock]bool{}
+	for _, b := range h.Blocks {
+		if inCycle(b) {
+			body[b] = true
+		}
+	}
+	if len(body) == 0 {
+		return -1
+	}
+	var hdr *ssa.BasicBlock
+	for b := range body {
+		for _, p := range b.Preds {
+			if !body[p] {
+				hdr = b
+			}
+		}
+	}
+	found := edgesWhere(h, func(a Atom, holds bool) bool {
+		if a.Kind != "bool" || !holds {
+			return false
+		}
+		ex, ok := strip(a.X).(*ssa.Extract)
+		if !ok || ex.Index != 1 {
+			return false
+		}
+		lk, ok := ex.Tuple.(*ssa.Lookup)
+		if !ok || !lk.CommaOk {
+			return false
+		}
+		if _, n, ok := fieldLoad(lk.X); !ok || n != field {
+			return false
+		}
+		return derivesFrom(lk.Index, keys)
+	})
+	if len(found) == 0 {
+		return -1
+	}
+	nTrue, nFalse := 0, 0
+	for _, r := range returnsOf(h) {
+		if len(r.Results) != 1 {
+			return -1
+		}
+		k, isK := constBool(returnedValue(r, 0))
+		if !isK {
+			return -1
+		}
+		if k {
+			nTrue++
+			if !mustPassEdges(h, r.Block(), found) {
+				return -1
+			}
+			continue
+		}
+		nFalse++
+		// false only once the loop is exhausted: not reachable from a body block other than the header
+		for b := range body {
+			if b == hdr {
+				continue
+			}
+			for _, sblk := range b.Succs {
+				if !body[sblk] && (sblk == r.Block() || reach(sblk, nil, nil)[r.Block()]) {
+					return -1
+				}
+			}
+		}
+	}
+	if nTrue == 0 || nFalse == 0 {
+		return -1
+	}
+	return si
 }
 
 // lookupValue: the value (#0) of the comma-ok lookup of field[key] in f, if unique.
@@ -108,22 +212,32 @@ func ruleVD5(c *Ctx) {
 		c.check(mustPassEdges(f, blk, gSelf), fn, construct+"|self", pos, "dominated by validateDepSelf(from,to)==nil", "not dominated by validateDepSelf(from,to)==nil on the emitted ids: a self-dependency can be recorded")
 		// cycle (with bypass for non-link types)
 		var graphArg ssa.Value
-		gCyc := guardBool(f, hc, false, func(a []ssa.Value) bool {
+		cycArgs := func(a []ssa.Value) bool {
 			if len(a) == 3 && c.canon(a[1]) == fc && c.canon(a[2]) == tc {
 				graphArg = a[0]
 				return true
 			}
 			return false
-		})
-		bypass := map[edge]bool{}
-		if len(em.Types) > 1 || !em.has("link") {
-			typeCanon := c.canon(em.Call.Call.Args[0])
-			bypass = edgesWhere(f, func(a Atom, holds bool) bool {
-				return a.Kind == "const" && !holds && a.C.Value != nil && a.C.Value.Kind() == constant.String &&
-					constant.StringVal(a.C.Value) == "link" && c.canon(a.X) == typeCanon
-			})
 		}
-		okCyc := mustPassEdges(f, blk, unionEdges(gCyc, bypass)) && len(gCyc) > 0
+		gCyc := guardBool(f, hc, false, cycArgs)
+		bypassOK := len(em.Types) > 1 || !em.has("link")
+		typeCanon := c.canon(em.Call.Call.Args[0])
+		notLink := func(a Atom, holds bool) bool {
+			return bypassOK && a.Kind == "const" && !holds && a.C.Value != nil && a.C.Value.Kind() == constant.String &&
+				constant.StringVal(a.C.Value) == "link" && c.canon(a.X) == typeCanon
+		}
+		// one edge set for both: a validator helper may return nil either because the type is not "link" or because the
+		// cycle search said no (its alternatives are judged one by one)
+		isCyc := boolGuardPred(hc, false, cycArgs)
+		sawCyc := len(gCyc) > 0
+		gCycOrBypass := edgesWhere(f, func(a Atom, holds bool) bool {
+			if isCyc(a, holds) {
+				sawCyc = true
+				return true
+			}
+			return notLink(a, holds)
+		})
+		okCyc := mustPassEdges(f, blk, gCycOrBypass) && sawCyc
 		if !em.has("link") {
 			okCyc = true
 		}
@@ -176,11 +290,30 @@ func ruleVD5(c *Ctx) {
 					})
 				}
 			})
+			if !upd {
+				upd = c.validatorInsertsEdge(f, blk, hc, fc, tc, typeCanon, bypassOK, isDepsInsert)
+			}
 			c.check(upd, fn, construct+"|graph-updated", pos, "accepted edge is added to graph.Deps[from][to] before the next edge is checked",
 				"edges accepted earlier in the same command are not added to the in-memory graph: a chain can close a cycle through its own earlier edge")
 		}
 		if planLike {
 			c.ok(fn, construct+"|ends", pos, "both ends are ids minted in this callback (plan)")
+			// an end read out of the title->id map with a plain m[k] is the zero id "" when the title has not been entered
+			// yet: the map has to be complete (no insertion still ahead of the lookup) or the lookup comma-ok tested
+			incomplete := ""
+			for _, endV := range []ssa.Value{from, to} {
+				lk, isLk := resolve(endV).(*ssa.Lookup)
+				if !isLk || lk.CommaOk {
+					continue
+				}
+				for _, mu := range c.mapUpdatesOf(resolve(lk.X)) {
+					if mu.Parent() == lk.Parent() && canReachInstr(lk, mu) {
+						incomplete = c.canon(endV) + " is read at " + c.Pos(lk.Pos()) + " while entries are still being added at " + c.Pos(mu.Pos())
+					}
+				}
+			}
+			c.check(incomplete == "", fn, construct+"|ends-complete", pos, "ids are looked up in the title map only after every title was entered",
+				"an end of the edge is looked up in a map that is still being filled ("+incomplete+"): a title entered later resolves to the empty id and the edge is recorded to an item that does not exist while the requested edge is lost")
 			continue
 		}
 		// existence + kinds
@@ -249,6 +382,72 @@ func ruleVD5(c *Ctx) {
 		})
 	}
 	c.check(badOwn == "", "<module>", "derived-deps-owned-by-replay", "-", "Graph.RDeps, Task.Deps and Task.RDeps are written only by replay (deps/rdeps mirror each other by construction)", badOwn)
+}
+
+// validatorInsertsEdge: the accepted edge is added to the in-memory graph inside a validator helper called on the way to
+// the emission (validateLinkEdge(graph, eventType, edge) == nil): in the helper the insertion into Deps[from][to] lies
+// behind the cycle search's `no`, and every success return of the helper either took a type-is-not-"link" edge or passed
+// the insertion.
+func (c *Ctx) validatorInsertsEdge(f *ssa.Function, emit *ssa.BasicBlock, hc *ssa.Function, fc, tc, typeCanon string, bypassOK bool,
+	isDepsInsert func(mu *ssa.MapUpdate, fromCanon, toCanon string) bool) bool {
+	found := false
+	for _, call := range callsIn(f) {
+		cv, ok := call.(*ssa.Call)
+		h := calleeOf(call.Common())
+		if !ok || h == nil || !c.InModule(h) || h.Blocks == nil || errorResultIndex(call) < 0 {
+			continue
+		}
+		if !mustPassEdges(f, emit, nilErrEdges(f, cv)) {
+			continue
+		}
+		e := env{}
+		for i, prm := range h.Params {
+			if i < len(cv.Call.Args) {
+				e[prm] = cv.Call.Args[i]
+			}
+		}
+		gCycH := guardBool(h, hc, false, nil)
+		if len(gCycH) == 0 {
+			continue
+		}
+		var insertBlk *ssa.BasicBlock
+		eachInstr(h, func(r2 instrRef) {
+			if mu, ok := r2.In.(*ssa.MapUpdate); ok {
+				curEnv = e
+				if isDepsInsert(mu, fc, tc) && mustPassEdges(h, r2.Blk, gCycH) {
+					insertBlk = r2.Blk
+				}
+				curEnv = nil
+			}
+		})
+		if insertBlk == nil {
+			continue
+		}
+		pass := map[edge]bool{}
+		for i := range insertBlk.Succs {
+			pass[edge{insertBlk, i}] = true
+		}
+		if bypassOK {
+			curEnv = e
+			for ed := range edgesWhere(h, func(a Atom, holds bool) bool {
+				return a.Kind == "const" && !holds && a.C.Value != nil && a.C.Value.Kind() == constant.String &&
+					constant.StringVal(a.C.Value) == "link" && c.canon(resolveEnv(a.X, e)) == typeCanon
+			}) {
+				pass[ed] = true
+			}
+			curEnv = nil
+		}
+		all := true
+		for _, r := range c.nonFailingReturns(h) {
+			if r.Block() != insertBlk && !mustPassEdges(h, r.Block(), pass) {
+				all = false
+			}
+		}
+		if all {
+			found = true
+		}
+	}
+	return found
 }
 
 // mintedInCallback: v derives from a newShortID call in the same function (through a map filled there).
